@@ -8,6 +8,8 @@ import (
 	"encoding/hex"
 	"encoding/json"
 	"fmt"
+	"os"
+	"path/filepath"
 	"reflect"
 	"strings"
 	"testing"
@@ -84,6 +86,10 @@ func newC17World() *c17World {
 }
 
 func (w *c17World) cleanup() {
+	for _, g := range []string{w.sub, w.g1, w.g2} {
+		os.Remove(filepath.Join(w.rig.groups, filepath.FromSlash(g)+".json"))
+	}
+	os.Remove(filepath.Join(w.rig.groups, filepath.FromSlash(w.g1)))
 	for _, t := range []string{w.tokAdm1, w.tokAdm2, w.tokNoAdm, w.tokExp, w.tokRoot, w.tokUser} {
 		_, etag, err := token.Get(t)
 		if err == nil {
@@ -184,6 +190,9 @@ func TestVerif_C17_AuthMatrix(t *testing.T) {
 			rt := routes[rapid.IntRange(0, len(routes)-1).Draw(t, "route")]
 			method := rapid.SampledFrom([]string{"GET", "GET", "HEAD", "PUT", "PUT", "POST", "DELETE", "DELETE", "OPTIONS", "PATCH", "BOGUS"}).Draw(t, "method")
 			cr := creds[rapid.IntRange(0, len(creds)-1).Draw(t, "cred")]
+			if rt.pwUser == "bob" && g == w.g1 && rapid.IntRange(0, 2).Draw(t, "ownPw") == 0 {
+				cr = creds[6] // bob presenting bob's current password
+			}
 			hdr := map[string]string{}
 			if cr.hdr != "" {
 				hdr["Authorization"] = cr.hdr
